@@ -17,6 +17,7 @@ import SvgVerif.Spec.PathSpec
 import SvgVerif.Model.PathPrint
 import SvgVerif.Model.Reverse
 import SvgVerif.Model.ArcBezier
+import SvgVerif.Model.ArcLen
 open Svg Svg.Wire
 
 def fmtMat (m : Mat Float) : String :=
@@ -259,6 +260,25 @@ def optNat (s : String) : Option Nat := if s = "-" then none else s.toNat?
 def convOf (kind : String) (n : Option Nat) (a : ArcData Float) : List (Seg Float) :=
   if kind = "c" then a.cubicCurves n else a.quadCurves n
 
+-- ---------------------------------------------------------------- C15
+instance : LogK Float := ⟨Float.log⟩
+
+/-- Python `int(round(x))` for x ≥ 0: round half to even -/
+def roundHalfEven (x : Float) : Nat :=
+  let f := x.floor
+  let d := x - f
+  let n := f.toUInt64.toNat
+  if d < 0.5 then n else if d > 0.5 then n + 1 else (if n % 2 == 0 then n else n + 1)
+
+def distF (p q : Pt Float) : Float := dist p q
+
+def segLeavesOf (s : Seg Float) (err : Float) (md : Nat) : Nat :=
+  match s with
+  | .cubic a b c d => let f := Seg.cubicPoint a b c d; segLeaves distF f err md 200 0 1 (f 0) (f 1) 0
+  | .arc a => if a.sweep == 0 || fabs (a.rx - a.ry) < (errorEps : Float) then 1
+              else segLeaves distF a.point err md 200 0 1 (a.point 0) (a.point 1) 0
+  | _ => 1
+
 -- ---------------------------------------------------------------- C11
 def boxOf : List Float → Box Float
   | [x, y, w, h] => ⟨x, y, w, h⟩
@@ -304,6 +324,15 @@ def step (line : String) : String :=
          let lim : Float := (Trig.tau : Float) * floatOfHex err
          fmtSegs (approxPath (fun a => convOf kind (some (arcRequired a.sweep lim)) a) eqvF segs)
        | none => "bad-op")
+  | ["c15.len", sg, err, md] =>
+      (match segOfStr sg with
+       | some s => "OK " ++ hexOfFloat (s.length (floatOfHex err) md.toNat! 200) ++ " " ++ toString (segLeavesOf s (floatOfHex err) md.toNat!)
+       | none => "bad-op")
+  | ["c15.select", ls, ts] =>
+      let lens := fl ls
+      "OK " ++ " ".intercalate ((fl ts).map fun t =>
+        let r := pointSelect roundHalfEven (fun n => Float.ofNat n) lens t
+        toString r.1 ++ " " ++ hexOfFloat r.2)
   | ["seg.point", sg, t] =>
       (match segOfStr sg with | some s => "OK " ++ fmtPt (s.point (floatOfHex t)) | none => "bad-op")
   | ["seg.mul", sg, m] =>
